@@ -441,6 +441,7 @@ func CheckC08(h *History) []Violation {
 		for _, a := range h.Scenario.Accounts {
 			cur[acctKey(a.Supi, a.RG)] = a.UnitCost
 		}
+		ranDry := map[int32]bool{}
 		for _, o := range h.Ops {
 			if o.Op.Kind == "dbcost" {
 				cur[acctKey(o.Op.Supi, o.Op.RG)] = o.Op.Consumer
@@ -478,6 +479,30 @@ func CheckC08(h *History) []Violation {
 					v.add("C08", "chf-unit-cost-disagrees", "", o.Op.ID,
 						"after update op %d the CHF rates %s rg %d with unit cost %d, but the rating server's answer to this very request carries the tariff %d x 10^%d = %d (stored unit cost %q)",
 						o.Op.ID, o.Op.Supi, u.RG, st.UnitCost, digits, exp, k, cur[acctKey(o.Op.Supi, u.RG)])
+					return v.list
+				}
+				// ... and the money the CHF took for the usage reported in this request is that usage
+				// priced with the unit cost the server applies now (the operator may have changed the
+				// stored tariff since the last report): account + reservation went down by used x k.
+				// Compared only while the account never ran dry (no final-unit / debit-mode episode)
+				// and inside the quantifier's domain (the exact price fits 32 bits).
+				pre, okPre := stateOf(o.Pre, o.Op.Supi, u.RG)
+				if !okPre || !pre.HasQuota || !st.HasQuota || pre.Quota <= 0 || st.Quota <= 0 || ranDry[u.RG] {
+					if okPre && (pre.Quota <= 0 || st.Quota <= 0) {
+						ranDry[u.RG] = true
+					}
+					continue
+				}
+				used := onlineUsed(o)[u.RG]
+				k32 := k & math.MaxUint32
+				if used < 0 || uint64(used)*k32 > math.MaxUint32 {
+					continue
+				}
+				taken := (pre.Quota + pre.Reserved) - (st.Quota + st.Reserved)
+				if taken != int64(uint64(used)*k32) {
+					v.add("C08", "chf-prices-with-another-unit-cost", "", o.Op.ID,
+						"update op %d reports %d used units of %s rg %d; the rating server's answers to this request carry the tariff %d x 10^%d = %d (stored unit cost %q), so the usage costs %d, but account + reservation went down by %d (%d+%d -> %d+%d): the CHF priced it with another unit cost",
+						o.Op.ID, used, o.Op.Supi, u.RG, digits, exp, k, cur[acctKey(o.Op.Supi, u.RG)], uint64(used)*k32, taken, pre.Quota, pre.Reserved, st.Quota, st.Reserved)
 					return v.list
 				}
 			}
